@@ -19,7 +19,7 @@ from ..core import pool_map
 MODULE = "sim/Results.tla"
 DEVS = ["EmptyMergeAliases", "MiscMergeAdds", "SqSumNotMerged"]
 NAME = "res"
-OTHER = "zz_other"     # a second result name in every set (SUM of 10^(alphabet index)): merges must treat every name alike
+OTHER = "reps"         # a second result name in every set (SUM of 10^(alphabet index)): merges must treat every name alike
 NCHOICE = 3
 
 
